@@ -423,3 +423,99 @@ def is_status_confluent(spec: dict) -> bool:
         if sorted(s.get("req") or []) != want:
             return False
     return True
+
+
+def or_split_variant(rng: random.Random) -> dict:
+    """OR-split with true / false / malformed conditions and a paired OR-join.
+    The statically known activated set is recorded as d['or_active'] on the join."""
+    width = rng.randint(2, 3)
+    branches = [f"b{i}" for i in range(width)]
+    raw = {}
+    conds = {}
+    active = []
+    for b in branches:
+        mode = rng.choice(["true", "false", "malformed", "none", "cmp"])
+        if mode == "true":
+            raw[f"go_{b}"] = True
+            conds[b] = f"go_{b}"
+            active.append(b)
+        elif mode == "false":
+            raw[f"go_{b}"] = False
+            conds[b] = f"go_{b}"
+        elif mode == "malformed":
+            conds[b] = rng.choice(["go_((", "1 +", "__import__('os')", "missing_name.attr", "-'x'"])
+        elif mode == "cmp":
+            raw[f"n_{b}"] = rng.randint(0, 3)
+            conds[b] = f"n_{b} >= 2"
+            if raw[f"n_{b}"] >= 2:
+                active.append(b)
+        else:
+            active.append(b)  # no condition -> activated by default
+    if not active:
+        active = [branches[0]]
+    stages = [st("a", [], [dict(OK, raw=raw, out=["a_o"])], split="OR", conds=conds)]
+    for b in branches:
+        kind = rng.choice(["ok", "ok", "fc"])
+        stages.append(st(b, ["a"], [{"kind": kind, "out": [b + "_o"]}]))
+    stages.append(st("j", branches, [dict(OK, out=["j_o"])], join="OR", or_active=sorted(active)))
+    stages.append(st("z", ["j"]))
+    return {"name": "orsplit_" + "".join(sorted(active)), "confluent": True, "stages": stages}
+
+
+def synthetic_variant(rng: random.Random) -> dict:
+    """Parent with before/after/on-failure children; some of them fail."""
+    def child(kind: str) -> dict:
+        return {"t": [{"kind": kind, "out": ["ch_o"]}]}
+
+    bk = rng.choice(["ok", "ok", "term", "fc"])
+    ak = rng.choice(["ok", "ok", "term", "fc"])
+    pk = rng.choice(["ok", "ok", "term", "fc"])
+    p = st("p", ["a"], [{"kind": pk, "out": ["p_o"]}], type="vs")
+    if rng.random() < 0.8:
+        p["before"] = [child(bk)] + ([dict(child("ok"), chain=rng.random() < 0.5)] if rng.random() < 0.4 else [])
+    if rng.random() < 0.8:
+        p["after"] = [child(ak)]
+    if rng.random() < 0.5:
+        p["onfail"] = [child(rng.choice(["ok", "term"]))]
+    side = st("s", ["a"], [dict(OK), dict(OK)])
+    return {
+        "name": f"syn_{bk}_{pk}_{ak}",
+        "confluent": all(k in ("ok", "fc") for k in (bk, ak, pk)),
+        "stages": [st("a"), p, side, st("z", ["p", "s"])],
+    }
+
+
+def jump_limit(max_jumps: int | None = None, level: str = "wf", shape: str = "loop", times: int = 10**6) -> dict:
+    """A task that keeps asking to jump; the limit must end it."""
+    if shape == "self":
+        sp = self_loop(times)
+    elif shape == "side":
+        sp = jump_side_branch(times)
+    else:
+        sp = jump_loop(times, 3)
+    sp["name"] = f"jumplimit_{shape}_{level}_{max_jumps}_{times}"
+    if max_jumps is not None:
+        if level == "wf":
+            sp["context"] = {"_max_jumps": max_jumps}
+        else:
+            for s in sp["stages"]:
+                s.setdefault("ctx", {})["_max_jumps"] = max_jumps
+    return sp
+
+
+def first_of_failing(rng: random.Random) -> dict:
+    width = rng.randint(2, 3)
+    ups = [f"u{i}" for i in range(width)]
+    jt = rng.choice(["DISCRIMINATOR", "N_OF_M"])
+    stages = [st("r")]
+    for u in ups:
+        kind = rng.choice(["ok", "ok", "term", "fc", "poll"])
+        beh = {"kind": kind, "out": [u + "_o"]}
+        if kind == "poll":
+            beh["n"] = rng.randint(1, 3)
+        stages.append(st(u, ["r"], [beh] + ([dict(OK)] if rng.random() < 0.4 else [])))
+    j = st("j", ups, [dict(OK, out=["j_o"])], join=jt)
+    if jt == "N_OF_M":
+        j["thr"] = rng.randint(1, width)
+    stages += [j, st("z", ["j"])]
+    return {"name": f"{jt.lower()}_fail{width}", "confluent": False, "stages": stages}
